@@ -210,6 +210,9 @@ def run(ctx):
     for i, c_ in enumerate(checks):
         mode, why = queried(c_, ix, defs, sys_id, k_id)
         ctx.inst("R02.5", "bmc:check#%d:props" % (i + 1), mode is not None, c_["sp"], "query `%s`: %s" % (show(c_)[:100], why), sample={"mode": mode})
+    # the encoding clauses (C04) are prerequisites of exactness: re-evaluated here, reported under their own rule ids
+    from . import c04
+    c04.run(ctx)
 
 
 def binding_of_pat(p):
